@@ -442,8 +442,8 @@ def handle (j : Json) : Except String Json := do
       -- decomposition of DcfData.from_traj_voronoi: v[i][d] = direction i varies along dimension d
       let v ← j.getObjValAs? (Array (Array Bool)) "v"
       let L : DcfLayout.Layout := v.toList.map (·.toList)
-      pure (Json.mkObj [("degree", Json.num (DcfLayout.degree L)), ("d_enc", Json.num (DcfLayout.dEnc L)), ("well_formed", Json.bool (DcfLayout.wellFormed L)),
-                        ("joint", natsJson (DcfLayout.joint L)), ("one_d", Json.arr ((DcfLayout.oneD L).map (fun p => natsJson [p.1, p.2])).toArray)])
+      pure (Json.mkObj [("degree", Json.num (DcfLayout.degree L)), ("d_enc", Json.num (DcfLayout.dEnc L)), ("well_formed", Json.bool (DcfLayout.wellFormedShipped L)), ("degree_shipped", Json.num (DcfLayout.degreeShipped L)),
+                        ("joint", natsJson (DcfLayout.joint L)), ("one_d", natsJson (DcfLayout.oneD L))])
   | "rpe_krad" =>
       let shifts ← getRats j "shifts"; let c ← getInt j "center"
       let k1 ← getNats j "k1"; let k2 ← getNats j "k2"
